@@ -353,7 +353,7 @@ def fixpoint_schedules(repo: Repo) -> RuleRun:
                 return None
         return NO_MATCH
 
-    def build(order, chopped, links):
+    def build(order, chopped, links, turned=()):
         """order: insertion order of chain positions; chopped[a] = set of positions holding a user chop on axis a;
         links = set of (p, p+1) pairs that are connected"""
         axes_by_pos = {}
@@ -378,14 +378,17 @@ def fixpoint_schedules(repo: Repo) -> RuleRun:
             blocks.append(blk)
         for p, q in links:
             for a in range(3):
-                axes_by_pos[p][a].get("neighbours").append(axes_by_pos[q][a])
-                axes_by_pos[q][a].get("neighbours").append(axes_by_pos[p][a])
+                # a block whose local axes are turned (position in `turned`): its axis 1 runs along the row's direction 2 and vice versa
+                ap = {1: 2, 2: 1}.get(a, a) if p in turned else a
+                aq = {1: 2, 2: 1}.get(a, a) if q in turned else a
+                axes_by_pos[p][ap].get("neighbours").append(axes_by_pos[q][aq])
+                axes_by_pos[q][aq].get("neighbours").append(axes_by_pos[p][ap])
         bl = Obj("block_list", cls=bl_cls)
         bl.set("blocks", blocks)
         return bl, axes_by_pos
 
-    def run(label, order, chopped, links, well_posed: bool):
-        bl, axes_by_pos = build(order, chopped, links)
+    def run(label, order, chopped, links, well_posed: bool, turned=()):
+        bl, axes_by_pos = build(order, chopped, links, turned)
         ev = Evaluator(repo=repo, module=fn.module, call_hook=hook, max_steps=60000)
         got = None
         try:
@@ -423,6 +426,11 @@ def fixpoint_schedules(repo: Repo) -> RuleRun:
         run(f"order {order}, axis chops on positions 3/3/0 and 0/1/2", order, [{3, 0}, {3, 1}, {0, 2}], chain, True)
         run(f"order {order}, axis 1 never chopped", order, [{0}, set(), {2}], chain, False)
         run(f"order {order}, positions 2-3 detached and unchopped", order, everything(0), {(0, 1), (2, 3)}, False)
+    # two families entering from opposite ends through a block whose local axes are turned by 90 degrees: the row direction '1' is
+    # chopped only at position 0, direction '2' only at position 3; block 1 has its local axes 1 and 2 exchanged. (chopped[] is
+    # given in LOCAL axes of each position, so the turned block holds no chop and the end blocks hold theirs on axis 1 resp. 2.)
+    for order in itertools.permutations(range(n)):
+        run(f"order {order}, crossing families through a turned block", order, [{0}, {0}, {3}], chain, True, turned=(1,))
     return r
 
 
